@@ -73,6 +73,8 @@ func serialNumber(shape string) *big.Int {
 		return big.NewInt(0x2002)
 	case "b1":
 		return big.NewInt(1)
+	case "zero":
+		return big.NewInt(0) // "openssl req -x509 -set_serial 0": accepted by OpenSSL and crypto/x509
 	case "7f":
 		return big.NewInt(0x7f)
 	case "80":
